@@ -104,7 +104,17 @@ def _natoms(rng, tier, kind):
     return int(rng.integers(400, 1300))
 
 
+# thorough tier: every 25-th case also runs in a worker whose extensions are ASan/UBSan-instrumented (vlib/sanitize.py)
+ASAN_EVERY = {"quick": 0, "thorough": 25}
+GROUPS = {"thorough": [dict(name="asan", flavour="asan", workers=2)]}
+
+
 def gen_cases(tier, seed):
+    from vlib.gen import common as _common
+    return _common.with_asan_slice(_gen_cases(tier, seed), ASAN_EVERY[tier])
+
+
+def _gen_cases(tier, seed):
     n = NCASES[tier]
     for i in range(n):
         rng = common.rng_for("C10", seed, i)
